@@ -228,3 +228,6 @@ def main(ctx):
             for ntr in (1, 2):
                 ctx.check({'tracks': [body + tail] * ntr, 'entry': 'merge_tracks'})
     ctx.check({'tracks': [], 'entry': 'merge_tracks'})
+    wide = [[tagged('note_on', i, i % 5), tagged('eot', 0, i % 3)] for i in range(1500)]
+    ctx.check({'tracks': wide, 'entry': 'merge_tracks'}, sample=False)
+    ctx.check({'tracks': wide, 'entry': 'merged_track'}, sample=False)
